@@ -33,6 +33,15 @@ def visited (d : ℕ → Bool) (i : ℤ) : ℕ → ℤ × ℤ
   | 0 => (i, i)
   | J + 1 => extend (d J) J (visited d i J)
 
+/-- a finite bit vector read as an infinite direction sequence (unused entries `false`) -/
+def extBits {J : ℕ} (d : Fin J → Bool) (k : ℕ) : Bool := if h : k < J then d ⟨k, h⟩ else false
+
+lemma bsum_eq_sum (d : ℕ → Bool) (J : ℕ) :
+    bsum d J = ∑ k ∈ range J, (if d k then 2 ^ k else 0) := by
+  induction J with
+  | zero => rfl
+  | succ J ih => rw [Finset.sum_range_succ, ← ih]; rfl
+
 lemma bsum_lt (d : ℕ → Bool) (J : ℕ) : bsum d J < 2 ^ J := by
   induction J with
   | zero => simp [bsum]
@@ -59,10 +68,10 @@ lemma bsum_testBit (d : ℕ → Bool) (J k : ℕ) (hk : k < J) : (bsum d J).test
     · subst h
       by_cases hd : d k = true
       · simp only [hd, if_true]
-        rw [Nat.add_comm, Nat.testBit_two_pow_add_eq, Nat.testBit_lt_two_pow hlt]
+        rw [Nat.add_comm, Nat.testBit_two_pow_add_eq, Nat.testBit_lt_two_pow hlt]; rfl
       · simp only [hd]
         simp only [Bool.false_eq_true, if_false, Nat.add_zero]
-        rw [Nat.testBit_lt_two_pow hlt]; simpa using hd
+        rw [Nat.testBit_lt_two_pow hlt]
 
 /-- the bits of a number reproduce it -/
 lemma bsum_of_testBit (m J : ℕ) : bsum (fun k => m.testBit k) J = m % 2 ^ J := by
